@@ -33,6 +33,7 @@ structure GObj where
   bk : String := ""           -- Buildable subclass name (cfg)
   sig : Sig := []
   children : List (PElem × GVal) := []
+  defaults : List (PElem × GVal) := []   -- default objects of the parameters (cfg)
   tags : List (Key × List Nat) := []
 deriving Repr, Inhabited
 
